@@ -112,7 +112,7 @@ theorem doFetch_inv (st : Store) (c base : Nat) (ck : Option Ckpt) (recs : List 
         · exact I1
         · refine inv_set (loaded st c) c _ I1 hs.1 rfl ?_
           have CI := I1.chan c
-          exact ⟨CI.uniq, CI.nz, CI.noHoles, CI.cache, CI.retOK, CI.iidx, CI.sidx, CI.cidx⟩
+          exact ⟨CI.uniq, CI.nodup, CI.nz, CI.noHoles, CI.cache, CI.retOK, CI.iidx, CI.sidx, CI.cidx⟩
     · have hne : rows ≠ [] := by intro e; rw [e] at he; exact he rfl
       have key := stage_batch_inv (loaded st c) c 2 recs rows ck I1 hs1 (by rw [c1, l1]) B hne
       cases ck with
